@@ -13,4 +13,8 @@ func runC01(c *Ctx) {
 	c01Guards(c, "C01.guards")
 	c01WildFlag(c)
 	c01TypeFilter(c)
+	c01RowHead(c, "C01.rowhead")
+	c01KeyLayout(c, "C01.keylayout")
+	c01TTL(c, "C01.ttl")
+	c01DecisionTable(c, "C01.decision-table")
 }
